@@ -2,9 +2,11 @@
 C04 - lookups are total and pure: a miss yields the default, never a change.
 
 Lean: Model/XPath.lean, Model/XPathApi.lean, Props/C04.lean
-B stream : xp.get (item access / get / first) on token soup and on misses derived from real paths
+B stream : xp.get (item access / get / first) on token soup and on misses derived from real paths;
+  xp.termfuel (python port of the proven fuel bound == Lean termFuel); xp.getf/bound (model run with that fuel)
 C evaluator: get/first never raise; default exactly when item access raises; item access raises only
-  the five allowed classes; '?' yields ''; the tree is unchanged by every lookup.
+  the five allowed classes; '?' yields ''; the tree is unchanged by every lookup;
+  the depth of nested _find frames stays below the proven fuel bound.
 """
 import copy
 
@@ -14,8 +16,8 @@ from harness.props import xpath_common as X
 
 MANIFEST = dict(
     category="proof",
-    technique="Lean 4 theorems over a hand-written model of the xpath engine (induction on the fuel over the whole resolver) + "
-              "differential correspondence with the implementation",
+    technique="Lean 4 theorems over a hand-written model of the xpath engine (induction on the fuel over the whole resolver; "
+              "termination by an explicit fuel bound) + differential correspondence with the implementation",
     text="Lean, for every tree, every string (well-formed or not), every fuel, dict and list roots. "
          "(1) Equations, no hypothesis: get returns what item access returns and the caller's default exactly when item access "
          "raises one of the funnelled classes or a plain missing key (C04_default_iff_miss); first is get with single-match "
@@ -39,9 +41,24 @@ MANIFEST = dict(
          "(3) Full-strength statement kept visible and refuted: C04_get_total_stmt, by a dict key literally named '*' "
          "(C04_star_key_diverges_cex: get('*/x') runs out of fuel for every fuel; the implementation raises RecursionError = "
          "finding C04-d). "
-         "Not proved: fuel adequacy (C04_fuel_enough_stmt: on plain-key trees some fuel suffices), so OutOfFuel is excluded only "
-         "by the correspondence streams; inputs the model answers Unsupported for (floats in text() conditions, '%' in quoted "
-         "values, non-ASCII digits) are differential only. "
+         "(4) Termination, proved (Proofs/XPathTerm*.lean, Model/XPathFuel.lean): for EVERY string and every "
+         "tree whose dict keys are plain names (PlainTree: no '/ [ ] * ? = ~', quotes or blanks, not '..'), the search ends - "
+         "with fuel >= termFuel t s neither get nor item access nor first answers OutOfFuel (C04_fuel_bound, hence "
+         "C04_fuel_enough = the former C04_fuel_enough_stmt). termFuel is an explicit bound computed from the parse of the "
+         "tokens, the height H and the width W of the tree: a re-resolution of the 'found' text costs <= (W+4)*H + 2*pieces + 1 "
+         "(the text consists of '/key' and '[i]' pieces only and never triggers '..', '*', a condition or text() again: "
+         "TermFound, term_plain), every step that consumes no token goes one level down (recursion on the height: termZ, "
+         "termN), '..' lengthens 'found' by <= 2*H pieces (termU, termU0), a new() step is one re-resolution and ends the "
+         "search; list roots: termPotL. With it the escape clause disappears and the property holds at full strength on "
+         "plain-key trees: C04_get_total (for ANY string, get and first return ok, or the model declares Unsupported) and "
+         "C04_getitem_errclass (item access raises only the five classes, or Unsupported) under PlainTree alone. The "
+         "hypothesis on keys is necessary (C04_star_key_diverges_cex). "
+         "Differential only: inputs the model answers Unsupported for (floats in text() conditions, '%' in quoted "
+         "values, non-ASCII digits). "
+         "The bound is fed back: a python port of termFuel is compared with the Lean definition (stream xp.termfuel, paths of "
+         "<= 3-4 tokens), the model is run with exactly that fuel and must agree with the implementation - in particular never "
+         "answer OutOfFuel (stream xp.getf/bound) - and the depth of nested n0dict._find / n0list._find frames of the "
+         "implementation must stay <= the bound, RecursionError being a violation (evaluator lookup/depth<=bound). "
          "The model of every lookup entry point (dict and list roots) is compared with the real code on token soup over the "
          "full xpath alphabet and on misses derived from real paths; the statement is executed on the implementation (no "
          "exception from get/first, default iff item access raises, only the five allowed classes from item access, tree "
@@ -176,20 +193,186 @@ def enc_diff(a, b):
     return {"before": a[:200], "after": b[:200]}
 
 
+# ---------------------------------------------------------------------------------------------------------
+# termination: the proven fuel bound (Lean: Model/XPathFuel.lean termFuel; Props/C04.lean C04_fuel_bound)
+# ---------------------------------------------------------------------------------------------------------
+def tree_hgt(t):
+    """termHgt: scalars 0, a container one more than its deepest child"""
+    if isinstance(t, dict):
+        return 1 + max([tree_hgt(v) for v in t.values()] or [0])
+    if isinstance(t, (list, tuple)):
+        return 1 + max([tree_hgt(v) for v in t] or [0])
+    return 0
+
+
+def tree_wd(t):
+    """termWd: the largest number of children of any container"""
+    if isinstance(t, dict):
+        return max([len(t)] + [tree_wd(v) for v in t.values()])
+    if isinstance(t, (list, tuple)):
+        return max([len(t)] + [tree_wd(v) for v in t])
+    return 0
+
+
+def tok_class(tok):
+    """what termTokPot looks at: 'e' (split_name_index raises), 'z' (no name), 'u'/'U' ('..' without/with index), 'n' (name)"""
+    from n0struct.n0struct_utils_find import split_name_index
+
+    try:
+        name, idx = split_name_index(tok)
+    except Exception:
+        return "e"
+    if not name:
+        return "z"
+    if name == "..":
+        return "U" if idx else "u"
+    return "n"
+
+
+def term_fuel(tree, xp):
+    """termFuel tree xp: the same recursion as the Lean definition, memoised on
+    (position in the token list, number of pending synthesised '..', height, pieces of found)"""
+    import functools
+    import sys
+
+    H = tree_hgt(tree)
+    W = max(1, tree_wd(tree))
+    s = xp[1:] if xp.startswith("?") else xp
+    toks = [itm.strip() for itm in s.replace("][", "]/[").split("/") if itm]
+    cls = [tok_class(t) for t in toks]
+    n = len(toks)
+
+    def R(g):
+        return (W + 4) * H + 2 * g + 1
+
+    @functools.lru_cache(maxsize=None)
+    def pot(i, k, h, g):
+        # k synthesised '..' (termU0), then the tokens from i on
+        if k > 0:
+            return 1 + max(R(g), pot(i, k - 1, H + 1, g + 2 * H))
+        if i == n:
+            return R(g) + 1
+        c = cls[i]
+        if c == "e":
+            return 1
+        if c == "z":
+            return Z(i + 1, 0, h, g)
+        if c == "U":
+            return 1 + max(R(g), Z(i + 1, 0, H + 1, g + 2 * H))
+        if c == "u":
+            return 1 + max(R(g), pot(i + 1, 0, H + 1, g + 2 * H))
+        return N(i + 1, 0, h, g)
+
+    @functools.lru_cache(maxsize=None)
+    def Z(j, k, h, g):
+        if h == 0:
+            return (W + 4) + max(pot(j, k, 0, g + 1), R(g))
+        return max((W + 4) + max(pot(j, k, h, g + 1), R(g)), (W + 4) + Z(j, k, h - 1, g + 1), 1 + Z(j, k + 1, h - 1, g + 1))
+
+    @functools.lru_cache(maxsize=None)
+    def N(j, k, h, g):
+        if h == 0:
+            return 1
+        return max((W + 4) + N(j, k, h - 1, g + 1), 1 + Z(j, k, h - 1, g + 1))
+
+    @functools.lru_cache(maxsize=None)
+    def potL(i, g):
+        if i == n:
+            return R(g) + g + 2
+        return (W + 3) + max(pot(i + 1, 0, H, g + 1), potL(i + 1, g + 1))
+
+    old = sys.getrecursionlimit()
+    sys.setrecursionlimit(max(old, 20000))
+    try:
+        return H, tree_wd(tree), max(pot(0, 0, H, 0), potL(0, 0))
+    finally:
+        sys.setrecursionlimit(old)
+
+
+class FindDepth:
+    """counts the nesting depth of n0dict._find / n0list._find frames while active"""
+
+    def __init__(self):
+        self.depth = 0
+        self.max = 0
+        self.calls = 0
+
+    def __enter__(self):
+        n0dict, n0list = X.n0()
+        self.classes = (n0dict, n0list)
+        self.saved = [c.__dict__["_find"] for c in self.classes]
+        me = self
+
+        def wrap(fn):
+            def _find(*a, **kw):
+                me.depth += 1
+                me.calls += 1
+                if me.depth > me.max:
+                    me.max = me.depth
+                try:
+                    return fn(*a, **kw)
+                finally:
+                    me.depth -= 1
+
+            return _find
+
+        for c, fn in zip(self.classes, self.saved):
+            setattr(c, "_find", wrap(fn))
+        return self
+
+    def __exit__(self, *exc):
+        for c, fn in zip(self.classes, self.saved):
+            setattr(c, "_find", fn)
+        return False
+
+
+def safe_case(c):
+    """inside the hypotheses of C04_fuel_bound (any path text; keys of the harness's trees are plain names);
+    '%' is outside the model of split_name_index (unquote)"""
+    return "%" not in c["xp"]
+
+
+def check_depth(c):
+    """the search of the implementation is not deeper than the proven fuel bound (and does not hit RecursionError)"""
+    o = X.convert(c["tree"], c["mode"])
+    xp = c["xp"]
+    _h, _w, bound = term_fuel(c["tree"], xp)
+    for kind in "gif":
+        with FindDepth() as fd:
+            if kind == "g":
+                r = core.call(lambda: o.get(xp, "D"))
+            elif kind == "i":
+                r = core.call(lambda: o[xp])
+            else:
+                r = core.call(lambda: o.first(xp, "D"))
+        if r[0] == "err" and r[1] == "RecursionError":
+            return {"recursion_error": kind, "bound": bound}
+        if fd.max > bound:
+            return {"find_depth": fd.max, "bound": bound, "kind": kind}
+    return None
+
+
+def checker_of(evaluator):
+    return check_depth if "depth" in (evaluator or "") else check_lookup
+
+
 def shrink_failure(evaluator, case):
     if case.get("expect_hit"):
         return case  # the path was derived from this very tree: a smaller tree would fail for another reason
+    chk = checker_of(evaluator)
+    xp0 = case.get("xp")
 
     def ok(c):
-        return isinstance(c.get("tree"), (dict, list)) and c.get("mode") in ("n0", "wrap") and isinstance(c.get("xp"), str) \
-            and not in_known(c) and check_lookup(c) is not None
+        # the tree may shrink; the path text stays as it is
+        return isinstance(c.get("tree"), (dict, list)) and c.get("mode") in ("n0", "wrap") and c.get("xp") == xp0 \
+            and not in_known(c) and (chk is check_lookup or safe_case(c)) and chk(c) is not None
 
     return core.shrink(case, ok, budget=400)
 
 
 def replay(rp):
     c = rp["case"]
-    bad = check_lookup(c)
+    bad = checker_of(rp.get("evaluator"))(c)
     print("case:", c)
     print("result:", "property holds" if bad is None else bad)
     return 1 if bad else 0
@@ -277,6 +460,39 @@ def run(ctx):
         lambda c: "xp.get %s %s %s %s" % (c["kind"], enc_str(c["xp"]), enc_val(c["d"]), enc_val(X.convert(c["tree"], c["mode"]))),
         impl_get,
     )
+    # ---- termination: the proven fuel bound (C04_fuel_bound) fed back into the check
+    safe = [c for c in lk + ncases if safe_case(c)]
+    rngt = ctx.rng("term")
+    nb = ctx.budget(400, 6000)
+    sample = safe if len(safe) <= nb else rngt.sample(safe, nb)
+    # C: the implementation's search is never deeper than the bound (no RecursionError)
+    ctx.evaluate("lookup/depth<=bound", sample, check_depth, nontrivial=lambda c: ("/" in c["xp"] or "[" in c["xp"]))
+    # B: the bound function itself (python port == Lean termFuel); the Lean definition is evaluated without
+    # memoisation (exponential in tokens x height), so only paths of <= 3 tokens (4 on low trees) are sent
+    def n_tokens(xp):
+        s = xp[1:] if xp.startswith("?") else xp
+        return len([i for i in s.replace("][", "]/[").split("/") if i])
+
+    small = [c for c in sample if n_tokens(c["xp"]) <= 3 or (n_tokens(c["xp"]) == 4 and tree_hgt(c["tree"]) <= 3)]
+    ctx.correspond(
+        "xp.termfuel",
+        small,
+        lambda c: "xp.termfuel %s %s" % (enc_str(c["xp"]), enc_val(X.convert(c["tree"], c["mode"]))),
+        lambda c: "ok %d %d %d" % term_fuel(c["tree"], c["xp"]),
+    )
+    # ... and the model run with exactly that fuel: never 'err OutOfFuel', same answer as the implementation
+    ctx.correspond(
+        "xp.getf/bound",
+        sample,
+        lambda c: "xp.getf %d %s %s %s %s" % (term_fuel(c["tree"], c["xp"])[2], c["kind"], enc_str(c["xp"]), enc_val(c["d"]),
+                                             enc_val(X.convert(c["tree"], c["mode"]))),
+        impl_get,
+    )
+    ctx.extra["fuel_bound"] = {
+        "cases": len(sample),
+        "bound_function_compared": len(small),
+        "max_bound": max([term_fuel(c["tree"], c["xp"])[2] for c in sample] or [0]),
+    }
     ctx.extra["assumptions"] = ["trees have plain-name keys; strings are built from the xpath alphabet of the property"]
     ctx.extra["distribution"] = {
         "soup": sum(1 for c in cases if not c["xp"].startswith(("?",))),
